@@ -10,7 +10,7 @@ Handles are creation indexes of the harness' own objects; removed objects keep t
 that invalid calls on them stay expressible.
 """
 from . import canon
-from .common import Violation
+from .common import Undetermined, Violation
 from .engine_hist import System
 
 MUST_RAISE, MUST_SUCCEED, ANY_UNCHANGED = 'must_raise', 'must_succeed', 'any_unchanged'
@@ -175,6 +175,14 @@ class ModelSystem(System):
                     ops.append((('add_entry_point', h, a, s), 1 if present else 0))
                     ops.append((('remove_entry_point', h, a, s), 0 if present else 1))
         if self.invalid_ops:
+            # entry points on an asset object that is not (or no longer) in the model: the attachment does not
+            # know the model, so the call is accepted; later failing calls must not strip it
+            for h in sorted(c.r_attackers)[:1]:
+                for a in self._stale_assets(c)[-1:]:
+                    if hasattr(c.assets[a], 'id') and hasattr(c.assets[a], 'name'):
+                        s0 = self.ep_steps[0]
+                        present = s0 in c.r_attackers[h]['eps'].get(a, [])
+                        ops.append((('add_entry_point', h, a, s0) if not present else ('remove_entry_point', h, a, s0), 1))
             stale = [h for h in range(len(c.attackers)) if h not in c.r_attackers]
             for h in stale[-1:]:
                 if not any(self._att_equal(c, h, g) for g in c.r_attackers):
@@ -185,12 +193,6 @@ class ModelSystem(System):
         out = []
         for h in range(len(c.assets)):
             if h in c.r_assets:
-                continue
-            o = c.assets[h]
-            # python_jsonschema_objects compares by value: a stale handle that is value-equal to
-            # a live asset is indistinguishable from it, the statement does not fix that call
-            oid, oname = getattr(o, 'id', None), getattr(o, 'name', None)
-            if any((a['id'] == oid and a['name'] == oname) for a in c.r_assets.values()):
                 continue
             out.append(h)
         return out
@@ -278,9 +280,13 @@ class ModelSystem(System):
                 (x['lf'], tuple(sorted(c.r_assets[h]['id'] for h in x['L']))),
                 (x['rf'], tuple(sorted(c.r_assets[h]['id'] for h in x['R'])))]))))
         o['associations'] = sorted(al)
+        def aid(a):
+            return c.r_assets[a]['id'] if a in c.r_assets else int(c.assets[a].id)
         o['attackers'] = {
-            t['id']: (t['name'], tuple(sorted((c.r_assets[a]['id'], tuple(s)) for a, s in t['eps'].items())))
+            t['id']: (t['name'], tuple(sorted((aid(a), tuple(s)) for a, s in t['eps'].items())))
             for t in c.r_attackers.values()}
+        if any(len({aid(a) for a in t['eps']}) != len(t['eps']) for t in c.r_attackers.values()):
+            o['attackers'] = 'ambiguous'      # two entry-point assets of one attacker share an id: the dict form cannot show both
         o['n_attackers'] = len(c.r_attackers)
         idh = {a['id']: h for h, a in c.r_assets.items()}
         nmh = {a['name']: h for h, a in c.r_assets.items()}
@@ -312,6 +318,8 @@ class ModelSystem(System):
                             observed=sorted(a['name'] for a in c.r_assets.values()))
         for part in ('to_dict_error', 'n_assets', 'assets', 'associations', 'n_attackers',
                      'attackers', 'by_id', 'by_name', 'asset_assocs', 'neighbours', 'entry_points'):
+            if part == 'attackers' and exp.get(part) == 'ambiguous':
+                continue
             if obs.get(part) != exp.get(part):
                 raise Violation(f'{opname}:obs_mismatch:{part}{tag}',
                                 f'after {opname}: observable {part} differs from the reference model',
@@ -350,6 +358,10 @@ class ModelSystem(System):
                                 f'{kind} {tag} raised {type(raised).__name__} but changed the observable state',
                                 expected=_s(before), observed=_s(after))
             return
+        if mode == 'raise_unchanged_or_undetermined':
+            if raised is None:
+                raise Undetermined()
+            mode = ANY_UNCHANGED
         if mode == ANY_UNCHANGED:
             if checking and after != before:
                 k = 'raised_but_state_changed' if raised is not None else 'invalid_call_changed_state'
@@ -495,6 +507,11 @@ class ModelSystem(System):
         def thunk():
             c.model.remove_asset(obj)
         if h not in c.r_assets:
+            # A stale object that carries the id of a live asset: an implementation that identifies assets
+            # by id may legitimately act on the live one.  Only 'raises => nothing changed' is demanded then.
+            sid = getattr(obj, 'id', None)
+            if any(a['id'] == sid for a in c.r_assets.values()):
+                return 'raise_unchanged_or_undetermined', thunk, None, 'stale_with_live_id'
             return ANY_UNCHANGED, thunk, None, 'stale'
         involved = [g for g, x in c.r_assocs.items() if h in x['L'] or h in x['R']]
         selfl = any(h in c.r_assocs[g]['L'] and h in c.r_assocs[g]['R'] for g in involved)
